@@ -89,10 +89,9 @@ func runC07(c *Ctx) {
 	rule = "R2-strip-semantics"
 	preserveF := c.Field(rule, "pkg/apis/options.Header.PreserveRequestValue")
 	nameF := c.Field(rule, "pkg/apis/options.Header.Name")
-	stripHandler := c.Fn(rule, "pkg/middleware.stripHeaders$1")
-	stripFn := c.Fn(rule, "pkg/middleware.stripHeaders")
 	headerDel := c.StdFunc(rule, "net/http.Header.Del")
-	if newStrip != nil && preserveF != nil && nameF != nil && stripHandler != nil && stripFn != nil && headerDel != nil {
+	stripHandler := c.stripHandlerFn(rule)
+	if newStrip != nil && preserveF != nil && nameF != nil && stripHandler != nil && headerDel != nil {
 		// collection: every append of a Name happens exactly under PreserveRequestValue==false; every
 		// loop iteration with PreserveRequestValue==false appends
 		appended := 0
@@ -1020,4 +1019,45 @@ func runC07R8(c *Ctx, rule string) {
 	if n == 0 {
 		c.R.Unknown(rule, "gap-auth-replaced|none", c.P.Pos(fn.Pos()), "the upstream proxy hands the request to no handler")
 	}
+}
+
+// stripHandlerFn finds the request handler that strips the configured header names: the closure created
+// within (static reach 2 of) newStripHeaders that calls http.Header.Del. It is found by what it does, so
+// inlining the stripHeaders helper into its caller, or renaming it, does not lose the anchor.
+func (c *Ctx) stripHandlerFn(rule string) *ssa.Function {
+	newStrip := c.P.Func("pkg/middleware.newStripHeaders")
+	headerDel := c.P.SSA.FuncValue(c.P.Method("net/http.Header.Del"))
+	if newStrip == nil || headerDel == nil {
+		c.R.Unknown(rule, "anchor:strip-handler", "-", "newStripHeaders or http.Header.Del not found")
+		return nil
+	}
+	var found []*ssa.Function
+	for fn := range c.staticReach(newStrip, 2) {
+		for _, b := range fn.Blocks {
+			for _, in := range b.Instrs {
+				mc, ok := in.(*ssa.MakeClosure)
+				if !ok {
+					continue
+				}
+				cl := mc.Fn.(*ssa.Function)
+				for _, b2 := range cl.Blocks {
+					for _, in2 := range b2.Instrs {
+						if call, ok := in2.(*ssa.Call); ok && call.Call.StaticCallee() == headerDel {
+							found = append(found, cl)
+						}
+					}
+				}
+			}
+		}
+	}
+	if len(found) == 0 {
+		c.R.Unknown(rule, "anchor:strip-handler", "-", "no closure reachable from newStripHeaders deletes request headers")
+		return nil
+	}
+	sort.Slice(found, func(i, j int) bool { return found[i].String() < found[j].String() })
+	if c.anchors == nil {
+		c.anchors = map[*ssa.Function]bool{}
+	}
+	c.anchors[found[0]] = true
+	return found[0]
 }
